@@ -350,6 +350,13 @@ pub fn run(ctx: &Ctx) -> Report {
             }
         };
         let wbits = w.bits();
+        // ---- (0) one unary code of more than 2^32 zeros, delivered to a counting sparse backend ----
+        if ctx.tier != Tier::Tiny {
+            let xs: Vec<u64> = if ctx.tier == Tier::Thorough { vec![(1 << 32) + 3, (1 << 32) - 1, (1 << 33) + 77] } else { vec![(1 << 32) + 3 + (ctx.seed % 64)] };
+            for x in xs {
+                super::huge::check_write(e, wbits, x, rep);
+            }
+        }
         let mut rng = Rng::derive(ctx.seed, 0xC01 + wbits as u64 + if e == En::BE { 0 } else { 1000 });
         let backends: Vec<WBackend> = vec![WBackend::Rec(None), WBackend::VecOwned, WBackend::Slice(64), WBackend::AdVec, WBackend::AdSink, WBackend::AdShort(3)];
         // ---- (1) exhaustive: every fill level x every op x second op x finish ----
@@ -474,6 +481,9 @@ fn cross_word_size(ctx: &Ctx, e: En, rep: &mut Report) {
 }
 
 pub fn replay(case: &str, rep: &mut Report) {
+    if case.starts_with("huge=") {
+        return super::huge::replay(case, rep);
+    }
     check_case(&Case::from_kv(case), rep);
 }
 
